@@ -49,6 +49,7 @@ func runC07(c *Ctx) {
 	c11WriteLock(c)
 	c12WriterGoroutineBounded(c)
 	lruIsSynchronised(c)
+	connectionHeadersAfterDecode(c)
 }
 
 func isZeroValue(v ssa.Value) bool {
